@@ -49,6 +49,17 @@ def load_table(pid):
             out.append({"kind": "patch", "name": "seeded/" + os.path.basename(os.path.dirname(meta)),
                         "patch": os.path.join(os.path.dirname(meta), "patch.diff"),
                         "expect": det[pid]})
+    # behaviour-preserving refactorings produced by sub-agents: the rules must stay silent on each
+    for meta in sorted(glob.glob(os.path.join(VERIF, "benign", "*", "meta.json"))):
+        try:
+            md = json.load(open(meta))
+        except Exception:
+            continue
+        if pid not in md.get("checked_with", []):
+            continue
+        for r in md.get("refactorings", []):
+            out.append({"kind": "patch", "benign": True, "name": "benign/%s/%s" % (os.path.basename(os.path.dirname(meta)), r["file"]),
+                        "patch": os.path.join(os.path.dirname(meta), r["file"])})
     return out
 
 
